@@ -738,7 +738,17 @@ impl Property for C19 {
         cfg.gosub = rng.pct(70);
         cfg.whiles = rng.pct(60);
         cfg.stop = rng.pct(30);
-        let prog = gen_program(rng, cfg);
+        let mut prog = gen_program(rng, cfg);
+        if rng.pct(25) && !prog.lines.is_empty() {
+            // line numbers of every width (the line-number prefix shifts the reported columns)
+            let n = prog.lines.len() as u32;
+            let step = *rng.pick(&[1u32, 3, 10]);
+            let start = *rng.pick(&[0u32, 7, 95, 990, 9995, 10000, 32000, 65000]);
+            let start = start.min(65529 - 60 - step * n);
+            for (i, l) in prog.lines.iter_mut().enumerate() {
+                l.num = (start + step * i as u32) as u16;
+            }
+        }
         let mut r = Ref::new(&prog);
         r.auto_reply = Some(rng.fork());
         r.max_steps = 3000;
